@@ -697,6 +697,11 @@ def open_sites_through_helpers(prog: Program, effects: T.Any, fn: FunctionInfo, 
             kws = {kw.arg: unparse(kw.value) for kw in c.keywords if kw.arg}
             mode, _n = None, None
             out.append((c, fn, inline(fn, path, prog, consts=False), kws))
+        elif s.detail.get("via") in ("read_text", "read_bytes", "write_text", "write_bytes") and isinstance(s.node, ast.Call) and isinstance(s.node.func, ast.Attribute):
+            c = s.node
+            kws = {"mode": repr(s.detail.get("mode") or ("wt" if s.detail["via"] == "write_text" else "wb"))}
+            kws.update({kw.arg: unparse(kw.value) for kw in c.keywords if kw.arg})
+            out.append((c, fn, inline(fn, c.func.value, prog, consts=False), kws))
     if depth <= 0:
         return out
     for call, t in prog.calls_in(fn):
